@@ -151,8 +151,9 @@ def main(argv: list[str]) -> int:
 
     errors = [r for r in results if "harness_error" in r]
     if errors:
-        for r in errors:
-            print(f"HARNESS ERROR in shard {canon(r.get('spec'))}:\n{r['harness_error']}\n{r.get('log', '')}", file=sys.stderr)
+        r = errors[0]
+        spec_txt = str({k: v for k, v in (r.get("spec") or {}).items() if k not in ("cases", "entries")})[:300]
+        print(f"HARNESS ERROR in {len(errors)} shard(s); first: {spec_txt}:\n{r['harness_error'][-3000:]}\n{r.get('log', '')[-1500:]}", file=sys.stderr)
         return 2
 
     evaluations = sum(r["evaluations"] for r in results)
